@@ -30,5 +30,5 @@ def run_case(unit, cs, idx, build, params):
         from . import c17
         return c17.case_ops(cs)
     if unit == "w2":
-        return _w2case.run_w2(cs, [mon2.c01_w2], setup=lambda: mon2.IdentityCtx(cs))
+        return _w2case.run_w2(cs, [mon2.c01_w2], setup=lambda: mon2.IdentityCtx(cs), gen_opts={"fills": 0.3})
     return _w1case.run_w1(cs, [mon1.Identity()])
